@@ -494,30 +494,46 @@ def r_layout_order(model, rep):
     S = P(cx.selfname)
     cp = P(cx.params[1])
     st = [ev for ev in cx.events if ev.kind == "store" and cx.self_attr(ev.target) == "compose_path"]
-    ok = len(st) == 3 and st[0].value == cp and not st[0].guards
+    cands = [c for e_ in st for c in facts.flows_to(cx, e_)]
+    ok = bool(cands) and cands[0].value == cp and not cands[0].guards and not cands[0].loops
     rep.ob("R-LAYOUT-ORDER", "Compose.__init__:default-is-given-path", ok, site=cx.site(f.node),
            msg="" if ok else "compose_path must default to the given path")
-    if len(st) != 3:
+    if not ok:
         return
+    rest = cands[1:]
     sub = ("call", ("global", "os.path.join"), (cp, ("const", "compose")), ())
     probe = ("call", ("global", "_file_exists"), (("call", ("global", "os.path.join"), (sub, ("const", "metadata/composeinfo.json")), ()),), ())
-    ok = st[1].value == sub and list(st[1].guards) == [(probe, True)]
-    rep.ob("R-LAYOUT-ORDER", "Compose.__init__:compose-subdir-first", ok, site=cx.site(st[1].lineno),
+    first = [c for c in rest if c.value == sub]
+    ok = len(first) == 1 and not first[0].loops and facts.canon_guards(first[0].guards) == frozenset([facts.canon_guard((probe, True))])
+    rep.ob("R-LAYOUT-ORDER", "Compose.__init__:compose-subdir-first", ok, site=cx.site(first[0].store.lineno if first else f.node),
            msg="" if ok else "<path>/compose must be preferred exactly when <path>/compose/metadata/composeinfo.json exists")
-    e = st[2]
-    okl = len(e.loops) == 1 and e.loops[0][1] == ("call", ("global", "os.listdir"), (cp,), ())
+    legacy = [c for c in rest if c.value != sub]
+    okl = len(legacy) == 1 and len(legacy[0].loops) == 1 and legacy[0].loops[0][1] == ("call", ("global", "os.listdir"), (cp,), ())
     if okl:
+        e = legacy[0]
         el = ("elem", e.loops[0][1], e.loops[0][0])
         p = ("call", ("global", "os.path.join"), (cp, el), ())
         mp = ("call", ("global", "os.path.join"), (p, ("const", "metadata")), ())
-        okl = e.value == p and e.guards[0] == (probe, False) and (("call", ("global", "_file_exists"), (mp,), ()), True) in e.guards
-        local = [g for g in e.guards if g[1] and g[0][0] == "boolop" and g[0][1] == "and"
-                 and ("cmp", ("not in",), (("const", "://"), cp)) in g[0][2]
-                 and ("call", ("global", "os.path.exists"), (cp,), ()) in g[0][2]]
-        okl = okl and len(local) == 1
-        brk = [ev for ev in cx.events if ev.kind == "break" and ev.loops == e.loops and ev.seq > e.seq]
-        okl = okl and len(brk) == 1
-    rep.ob("R-LAYOUT-ORDER", "Compose.__init__:legacy-scan", okl, site=cx.site(e.lineno),
+        gs = facts.canon_guards(e.guards)
+        want = {facts.canon_guard((probe, False)), facts.canon_guard((("call", ("global", "_file_exists"), (mp,), ()), True))}
+        others = [g for g in gs if g not in want]
+        # the scan runs for local existing paths only: '://' not in path and os.path.exists(path) (one conjunction or two tests)
+        conj = set()
+        for t, pol in others:
+            if pol and t[0] == "boolop" and t[1] == "and":
+                conj |= set(facts.canon_guard((x, True)) for x in t[2])
+            else:
+                conj.add((t, pol))
+        local = {facts.canon_guard((("cmp", ("not in",), (("const", "://"), cp)), True)),
+                 facts.canon_guard((("call", ("global", "os.path.exists"), (cp,), ()), True))}
+        okl = e.value == p and want <= gs and conj == local
+        # the first hit ends the scan
+        if okl and not e.terminal:
+            src = e.src or e.store
+            brk = [ev for ev in cx.events if ev.kind == "break" and ev.loops == e.loops and ev.seq > src.seq
+                   and facts.canon_guards(ev.guards) == facts.canon_guards(src.guards)]
+            okl = len(brk) == 1
+    rep.ob("R-LAYOUT-ORDER", "Compose.__init__:legacy-scan", okl, site=cx.site(legacy[0].store.lineno if legacy else f.node),
            msg="" if okl else "the legacy scan must run only when <path>/compose was not chosen, for local existing paths, choose "
                               "<path>/<sub> when <path>/<sub>/metadata exists and stop at the first hit")
     caches = [ev for ev in cx.events if ev.kind == "store" and cx.self_attr(ev.target) in [a[0] for a in ACCESSORS.values()]]
@@ -638,7 +654,7 @@ def check_c20(model, rep, tier):
     f = model.own_method("common.MetadataBase", "parse_file")
     pcx = facts.fctx(model, f)
     rets = [ev for ev in pcx.events if ev.kind == "return"]
-    ok = len(rets) == 1 and all(x[0] == "call" and x[1] == ("global", "json.load") for x in (rets[0].value[1] if rets[0].value[0] == "phi" else (rets[0].value,)))
+    ok = bool(rets) and not pcx.ex.falls_through and all(x[0] == "call" and x[1] == ("global", "json.load") for r_ in rets for x in T.alts(r_.value))
     glob = [ev for ev in pcx.events if ev.kind in ("store", "call") and (
         (ev.kind == "store" and T.root_of(ev.target) is not None and T.root_of(ev.target)[0] == "global") or
         (ev.kind == "call" and ev.value[1][0] == "global" and ev.value[1][1].split(".")[0].isupper()))]
